@@ -4,6 +4,7 @@ sidecar contracts in.  Only *insertions* are made:
   (a) the root Cargo.toml is rewritten to list the trimmed member set (everything else verbatim),
   (b) contract attribute lines are inserted immediately above a function's `fn` line,
   (c) one `#[cfg(kani)] #[path = "__verif_<x>.rs"] mod __verif_<x>;` line is appended to a file,
+  (c') `cargo_dep` lines (a dependency edge on a crate already in Cargo.lock) after [dependencies],
   (d) harness module files `__verif_*.rs` (copied from /verif/contracts/<id>/) and
       `.cargo/config.toml` are added.
 
@@ -23,6 +24,7 @@ REPO = os.environ.get("VERIF_REPO", "/repo")
 VERIF = os.path.dirname(os.path.dirname(os.path.abspath(__file__)))
 CRATES = ["libwild", "linker-utils", "linker-layout", "linker-trace"]
 MARK = "// __verif_inserted__"
+TOML_MARK = "# __verif_inserted__"
 
 
 class WeaveError(Exception):
@@ -119,6 +121,17 @@ def weave(scratch, cfg, contracts_dir, only_modules=None):
         open(path, "w").write(text)
         summary["modules"].append({"file": rel, "module": name, "source": mod["source"]})
         summary["inserted_lines"] += 1
+    for dep in cfg.get("cargo_dep", []):
+        # a dependency edge the harness needs to NAME a type of a crate that is already in
+        # Cargo.lock (e.g. hashbrown's allocator trait); inserted right after [dependencies].
+        path = os.path.join(scratch, dep["file"])
+        text = open(path).read()
+        m = re.search(r"(?m)^\[dependencies\]\n", text)
+        if not m:
+            raise rustscan.LostAnchor(f"no [dependencies] in {dep['file']}")
+        text = text[:m.end()] + f"{dep['line']} {TOML_MARK}\n" + text[m.end():]
+        open(path, "w").write(text)
+        summary["inserted_lines"] += 1
     for rel, lines in cfg.get("crate_attrs", {}).items():
         # inner attributes needed by Kani features (e.g. loop contracts); inserted at the top.
         path = os.path.join(scratch, rel)
@@ -149,7 +162,8 @@ def verify_weave(scratch, crates=CRATES):
                 report["files_compared"] += 1
                 if a == b:
                     continue
-                kept = [ln for ln in a.split(b"\n") if not ln.endswith(MARK.encode())]
+                kept = [ln for ln in a.split(b"\n")
+                        if not ln.endswith(MARK.encode()) and not ln.endswith(TOML_MARK.encode())]
                 if b"\n".join(kept) != b and b"\n".join(kept) != b + b"\n":
                     raise WeaveError(f"woven file differs from /repo beyond inserted lines: {rel}")
                 report["files_with_insertions"] += 1
